@@ -314,8 +314,16 @@ def main(argv):
 
     ck.run_proofs("Props/C12.v", ["Proofs/ConstantsLitProof.v", "Proofs/ConstantsProof.v", "Proofs/ConstantsSim.v"],
                   extra_targets=["Extract/Main_c12.vo", "Extract/Main.vo"])
-    model = Model("c12")
-    avm = Model("main")
+    def open_model(name, target):
+        # the binaries are rebuilt whenever any .v changed; if the tree moved under us, rebuild the objects and retry
+        for _ in range(2):
+            try:
+                return Model(name)
+            except RuntimeError:
+                coq_make([target], tag="C12")
+        return Model(name)
+    model = open_model("c12", "Extract/Main_c12.vo")
+    avm = open_model("main", "Extract/Main.vo")
     oracle = Oracle(model)
     rng = ck.rng
 
